@@ -491,8 +491,9 @@ def dunder (m : Mode) (op : Op) (a b : Atom) (fuel : Nat) : PyR :=
       if op = .ne then r.map (!·) else r
     | _ => .notImpl
   | .date _ | .dtm _ | .time _ =>
-    -- datetime.py:231-283 `_compare`
-    if b.isDT then
+    -- datetime.py:231-283 `_compare`; an UntypedAtomic operand goes through `fromstring`
+    if let .ua s := b then (if notTemporalLexical s then .valueErr else .unsupported)
+    else if b.isDT then
       let clash : Bool := match a, b with
         | .time _, .date _ | .date _, .time _ => op.isEqNe
         | .dtm _, .date _ | .date _, .dtm _ => op.isOrd
@@ -513,7 +514,8 @@ def dunder (m : Mode) (op : Op) (a b : Atom) (fuel : Nat) : PyR :=
           | _ => if b.isDur then .ok (decide (a.durVal = b.durVal)) else .ok false  -- other == (months, seconds)
       if op = .ne then r.map (!·) else r
     | .lt | .gt =>
-      if durInstanceOf b a then .ok (durCmp4 op a.durVal b.durVal) else .typeErr
+      if let .ua s := b then (if notTemporalLexical s then .valueErr else .unsupported)   -- self.fromstring(other.value)
+      else if durInstanceOf b a then .ok (durCmp4 op a.durVal b.durVal) else .typeErr
     | .le | .ge =>
       match dunder m .eq a b fuel with
       | .ok true => .ok true
@@ -623,6 +625,10 @@ def iterCheck (a b : Atom) : Except PyR (Atom × Atom) :=
     match b with
     | .qn .. | .ua _ => .ok (a, b)
     | _ => .error .typeErr
+  | .ua s =>
+    match b with
+    | .ua t => .ok (.str s, .str t)      -- both untyped: `yield str(op1), str(op2)`
+    | _ => .ok (a, b)
   | _ => .ok (a, b)
 
 /-- the comparison of one generated pair in the non-compatibility loop -/
@@ -751,7 +757,6 @@ def valuePair (m : Mode) (op : Op) (a b : Atom) : R :=
     else if isBoolA a || isBoolA b then .error .XPTY0004
     else if isIntDec a && isIntDec b then fin a b
     else if isStrLike3 a && isStrLike3 b then fin a b
-    else if (isStr a || isQN a) && (isStr b || isQN b) then fin a b
     else if isNumCls a && isNumCls b then
       (if a.isFloatCls then
         match getDouble b with
